@@ -16,11 +16,11 @@ TraceNext == UNCHANGED <<t, v>>
 TraceSpec == TraceInit /\ [][TraceNext]_<<t, v>>
 C == Cells[t]
 \* C07: the resumed value is the first-run value
-Same == C.outv = C.inv
+Same == Unname(C.outv) = Unname(C.inv)
 \* the listed deviation of the pinned codec (sub-second precision is not kept)
-SameModuloDeviation == C.outv = Deviation(C.inv)
+SameModuloDeviation == Unname(C.outv) = Unname(Deviation(C.inv))
 \* conformance: the bytes are the specification's encoding, the resumed value is its decoding
 EncodeEq == C.wr = Encode(C.inv)
-DecodeEq == C.outv = Decode(C.wr, C.inv.kind)
+DecodeEq == Unname(C.outv) = Unname(Decode(C.wr, C.inv.kind))
 Verdict == PrintT(<<"VERDICT", t, Same, SameModuloDeviation, EncodeEq, DecodeEq>>)
 =============================================================================
